@@ -239,9 +239,10 @@ def check_weights_and_gaussian(run, A):
     for cname in ('Gaussian', 'DiagonalGaussian', 'SphericalGaussian'):
         qp = f'{D}gaussian::{cname}.__post_init__'
         gp = A.graphs.get(A.prog.func(qp))
-        okp = any(e.kind == 'call' and (call_parts(e.term)[0] or '').endswith('_compute_precision_cholesky') for e in gp.events)
+        okp = any(e.kind == 'call' and ((call_parts(e.term)[0] or '').endswith('_compute_precision_cholesky') or is_call_to(e.term, 'numpy.linalg.cholesky', 'scipy.linalg.cholesky'))
+                  for e in gp.events)
         run.check(okp, 'R-SAN', f'{cname}: Cholesky factorisation of the covariance at construction (raises on non-PD input)', A.prog.func(qp).loc(), '',
-                  '_compute_precision_cholesky is no longer called in __post_init__', construct=f'R-SAN::{qp}::cholesky')
+                  'no Cholesky factorisation of the covariance in __post_init__ any more', construct=f'R-SAN::{qp}::cholesky')
 
 
 def check(run):
